@@ -123,7 +123,8 @@ def parse_unquoted_literal(an_elem):
 
 def unprefixize_uri_if_possible(target_uri, prefix_namespaces_dict, include_corners=True):
     for a_prefix in prefix_namespaces_dict:
-        if target_uri.startswith(a_prefix+":"):
+        # "http://..." is a full IRI even if some prefix is called "http": a local name cannot start with "//"
+        if target_uri.startswith(a_prefix+":") and not target_uri.startswith(a_prefix+"://"):
             result = target_uri.replace(a_prefix+":", prefix_namespaces_dict[a_prefix])
             if include_corners:
                 result = add_corners(result)
